@@ -32,11 +32,13 @@ impl<'a> CheckParams for Grammar<'a> {
                 format!("leftId was negative ({}), it must be positive", x),
             ));
         }
+        // leftId of a word is the second index of the connection matrix
+        // (grammars without a connection matrix have nothing to check against)
         let ux = x as usize;
-        if ux > self.conn_matrix().num_left() {
+        if self.conn_matrix().num_right() > 0 && ux >= self.conn_matrix().num_right() {
             return Err(SudachiError::InvalidDataFormat(
                 ux,
-                format!("max grammar leftId is {}", self.conn_matrix().num_left()),
+                format!("max grammar leftId is {}", self.conn_matrix().num_right()),
             ));
         }
         return Ok(x as u16);
@@ -50,11 +52,13 @@ impl<'a> CheckParams for Grammar<'a> {
                 format!("rightId was negative ({}), it must be positive", x),
             ));
         }
+        // rightId of a word is the first index of the connection matrix
+        // (grammars without a connection matrix have nothing to check against)
         let ux = x as usize;
-        if ux > self.conn_matrix().num_right() {
+        if self.conn_matrix().num_left() > 0 && ux >= self.conn_matrix().num_left() {
             return Err(SudachiError::InvalidDataFormat(
                 ux,
-                format!("max grammar rightId is {}", self.conn_matrix().num_right()),
+                format!("max grammar rightId is {}", self.conn_matrix().num_left()),
             ));
         }
         return Ok(x as u16);
